@@ -334,7 +334,9 @@ def check_lplist(I, rep, rule, where, key, entries):
         return
     _, L, elem, eg = items[0]
     trip_ok = L.trip is not None and equivalent(L.trip, cnt)[0]
-    rep.check(trip_ok and eg == TRUE and not L.breaks, rule, "one list element per target LP (trip count = byte@11)",
+    # (an element guard that merely repeats "there is at least one target" - `if count: ids.extend(...)` - drops nothing)
+    eg_ok = eg == TRUE or (L.trip is not None and equivalent(pelx.ite(and_(compare("gt", L.trip, Const(0)), not_(eg)), Const(1), Const(0)), Const(0))[0])
+    rep.check(trip_ok and eg_ok and not L.breaks, rule, "one list element per target LP (trip count = byte@11)",
               where, "out[%r]" % key, "the list does not get exactly one element per encoded target "
               "(trip=%r guard=%r breaks=%r)" % (L.trip, eg, L.breaks))
     h = hex_render(elem)
